@@ -1,7 +1,7 @@
 #!/bin/sh
 # Final confirmation as the brief prescribes: apply each seeded change to /repo ITSELF, run the property's quick check
 # (which rebuilds from /repo's working tree), undo with `git -C /repo checkout -- .`.  Never commits anything to /repo.
-# Must only run when nothing else is using /repo.  Writes seeded/CONFIRMED_IN_REPO.json.
+# Must only run when nothing else is using /repo.  ONLY=11,12 restricts to the seeds Cxx_11 and Cxx_12.  Writes seeded/CONFIRMED_IN_REPO.json.
 cd /verif || exit 2
 [ -z "$(git -C /repo status --porcelain)" ] || { echo "/repo is not clean"; exit 2; }
 rm -rf /verif/.ev_backup; cp -r evidence /verif/.ev_backup
@@ -10,6 +10,7 @@ echo "{" > $out.tmp
 first=1
 for d in seeded/C??_*; do
   s=$(basename $d); p=${s%%_*}
+  if [ -n "${ONLY:-}" ]; then case ",$ONLY," in *",${s##*_},"*) ;; *) continue;; esac; fi
   [ -f $d/patch.diff ] || continue
   if ! git -C /repo apply /verif/$d/patch.diff 2>/dev/null; then r="patch-does-not-apply"; else
     o=$(./check $p quick 2>&1); code=$?
